@@ -19,7 +19,7 @@ CONFIGS = {
     "uh": ["-DRDSPARSER_DISABLE_HEAP"],
     "nh": ["-DRDSPARSER_DISABLE_UNICODE", "-DRDSPARSER_DISABLE_HEAP"],
 }
-SAN = ["-O1", "-g", "-fsanitize=address,undefined", "-fno-sanitize-recover=all", "-fno-omit-frame-pointer"]
+SAN = ["-O1", "-g", "-fsanitize=address,undefined", "-fsanitize=bounds-strict", "-fno-sanitize-recover=all", "-fno-omit-frame-pointer"]
 
 class BuildError(Exception):
     pass
